@@ -91,6 +91,7 @@ def table_worker(mname, which=("C02", "C03", "C04")):
     jrel, jabs = set(ns.get("hasjrel", [])), set(ns.get("hasjabs", []))
     cats = {c: set(ns.get(c, [])) for c in ("hasconst", "hasname", "haslocal", "hasfree", "hascompare")}
     refcats = {c: set((ref or {}).get(c, [])) for c in ("hasconst", "hasname", "haslocal", "hasfree", "hascompare")}
+    refjrel, refjabs = set((ref or {}).get("hasjrel", [])), set((ref or {}).get("hasjabs", []))
     lp = localsplus_expected(MARK)
     finder = ns.get("findlabels")
     if not isinstance(finder, FuncRef):
@@ -256,6 +257,13 @@ def table_worker(mname, which=("C02", "C03", "C04")):
                or (cat in ("haslocal", "hasname", "hasfree") and fl.get("optype") in ("compare", "const", "free", "jabs", "jrel", "local", "name")),
                cat[3:], fl.get("optype"))
         # ------------------------------------------------------------ C04 decoder jump target
+        if ref is not None and nm in ref.get("opmap", {}) and ref["opmap"][nm] == K:
+            rj = ("jrel" if K in refjrel else "jabs" if K in refjabs else None)
+            xj = ("jrel" if K in jrel else "jabs" if K in jabs else None)
+            if rj or xj:
+                ob("C04", "R1", DEC, "%s:jump-category" % nm, rj == xj, rj, xj,
+                   msg="%s is %s in CPython %d.%d but the table files it under %s: its operand is %s as a jump target and its labels are %s" % (
+                       nm, rj or "not a jump", v[0], v[1], xj or "no jump category", "shown" if xj else "not shown", "invented" if xj and not rj else "missing"))
         if K in jrel or K in jabs:
             if K in jrel:
                 sign = -1 if (v >= (3, 11) and "JUMP_BACKWARD" in nm) else 1
@@ -375,3 +383,31 @@ def table_worker(mname, which=("C02", "C03", "C04")):
 def atoms_repr(t):
     from ..sve import atoms_of
     return set(atoms_of(t).keys())
+
+
+
+def restate_decoder(rep, T, rule, tier="quick"):
+    """Re-derive every obligation of C02, C03 and C04 (per-table decoder summaries plus their plumbing rules) and restate them in `rep`
+    under `rule` -- used by the properties whose statement includes the decoded records (C12 listings, C20 xdis.std)."""
+    from ..par import pmap
+    from ..report import SubReport, merge_sub
+    from . import c02, c03, c04
+    subs = {p: SubReport(p) for p in ("C02", "C03", "C04")}
+    nops = 0
+    for res in pmap(_all_work, sorted(T.reachable)):
+        for (p_, r_, construct, detail, ok, exp, got, where, msg) in res:
+            if p_ == "META":
+                nops += detail
+            elif p_ in subs:
+                subs[p_].ob(r_, construct, detail, ok, expected=exp, derived=got, where=where, msg=msg)
+    rep.floor("(table, opcode) decoder specialisations", nops, 4000)
+    c02.driver(subs["C02"])
+    c03.plumbing_rule(subs["C03"], T)
+    c04.extra_rules(subs["C04"], T, tier)
+    for p_ in sorted(subs):
+        merge_sub(rep, subs[p_], rule, p_)
+    return nops
+
+
+def _all_work(mname):
+    return table_worker(mname, ("C02", "C03", "C04"))
